@@ -174,3 +174,125 @@ def targets():
         ts.append(target_method(m))
     ts.append(target_registry())
     return ts
+
+
+# ------------------------------------------------------------------------------------------------ part 2: step accounting
+def target_zhit_steps():
+    """perform_zhit: the real step accounting -- num_steps arithmetic of perform_zhit against the prog.increment() calls of
+    the real _generate_window_options / _generate_smoothing_options / _generate_interpolation_options /
+    _reconstruct_modulus_data / _adjust_modulus_offset -- executed by CPython with the real Progress class (so an excess
+    increment raises exactly as in production) and stand-ins for the numerical leaves only.  Exhaustive over
+    {smoothing: auto|named} x {interpolation: auto|named} x {window: auto|named} x {weights: None|array} x {num_procs 1}
+    and window-table sizes W in {1, 2, 14}: both sides are affine in W, so W = 1, 2 decide every W >= 1."""
+    import itertools
+    from pyvc import overload as O
+    Z = "analysis/zhit/__init__"
+
+    def run(sess: Session):
+        n = 0
+        for W in (1, 2, 14):
+            for smoothing, interpolation, window, with_weights in itertools.product(("auto", "modsinc"), ("auto", "akima"), ("auto", "boxcar"), (False, True)):
+                ns = {}
+                O.load(MOD, ["Progress"], ns) if False else None
+                # real Progress class, with the notification back end stubbed
+                import ast as _ast
+                from pyvc import core as _core
+                cls = _core.find_def(MOD, "Progress")
+                mod_ = _ast.Module(body=[O.strip(m) if isinstance(m, _ast.FunctionDef) else m for m in [cls]], type_ignores=[])
+                # strip annotations inside the class body methods
+                cls2 = _ast.ClassDef(name="Progress", bases=[], keywords=[], body=[O.strip(m) for m in cls.body if isinstance(m, _ast.FunctionDef)], decorator_list=[])
+                m2 = _ast.Module(body=[cls2], type_ignores=[])
+                _ast.fix_missing_locations(m2)
+                pns = {"_update_every_N_percent": lambda **kw: None}
+                exec(compile(m2, "<progress:Progress>", "exec"), pns)
+                RealProgress = pns["Progress"]
+                made = []
+
+                def mkprog(*a, **k):
+                    p = RealProgress(*a, **k)
+                    made.append(p)
+                    return p
+
+                class Interp:
+                    def derivative(self, n_):
+                        return self
+
+                    def __call__(self, x):
+                        return 0.0
+
+                class Arr(list):
+                    def __pow__(s, k):
+                        return s
+
+                    def __mul__(s, k):
+                        return s
+                    __rmul__ = __mul__
+
+                    def __add__(s, k):
+                        return s
+                    __radd__ = __add__
+
+                    def __iadd__(s, o):
+                        return s
+
+                    def __isub__(s, o):
+                        return s
+
+                    @property
+                    def real(s):
+                        return s
+
+                class Data:
+                    def get_frequencies(s):
+                        return Arr([1.0, 2.0, 3.0])
+
+                    def get_impedances(s):
+                        return Arr([1.0, 2.0, 3.0])
+
+                    def get_label(s):
+                        return ""
+
+                    def get_path(s):
+                        return ""
+                table = {f"w{i}": None for i in range(W)}
+                table["boxcar"] = None
+                table = dict(list(table.items())[-W:]) if W < len(table) else table
+                if "boxcar" not in table:
+                    table["boxcar"] = None
+                Wn = len(table)
+                ns = {"_WINDOW_FUNCTIONS": table, "_initialize_window_functions": lambda: None, "_generate_weights": lambda *a: Arr([1.0]),
+                      "_smooth_phase": lambda *a: Arr([0.0]), "_interpolate_phase": lambda *a: Interp(), "_reconstruct": lambda a: (Arr([0.0]), a[3], a[4]),
+                      "_adjust_offset": lambda a: (0.0, Arr([1.0]), a[6], a[7], a[8]), "Pool": None, "Progress": mkprog,
+                      "_is_boolean": lambda x: isinstance(x, bool), "_is_integer": lambda x: isinstance(x, int), "_is_floating": lambda x: isinstance(x, float),
+                      "_is_floating_array": lambda x: isinstance(x, Arr), "isinstance": lambda a, b: True, "DataSet": object,
+                      "_SMOOTHING_METHODS": [], "_INTERPOLATION_METHODS": [], "log": lambda x: x, "ln": lambda x: x, "pi": 3.0, "angle": lambda x: x,
+                      "min": lambda x: 1.0, "abs": lambda x: x, "max": max, "len": len, "get_default_num_procs": lambda: 1, "array": lambda x: Arr(x), "list": list, "map": map,
+                      "_calculate_residuals": lambda **k: None, "_calculate_pseudo_chisqr": lambda **k: 0.0, "ZHITResult": lambda **k: ("result", k), "sorted": sorted}
+                O.load("analysis/zhit/weights", ["_generate_window_options"], ns)
+                O.load("analysis/zhit/smoothing/__init__", ["_generate_smoothing_options"], ns)
+                O.load("analysis/zhit/interpolation", ["_generate_interpolation_options"], ns)
+                O.load("analysis/zhit/reconstruction", ["_reconstruct_modulus_data"], ns)
+                O.load("analysis/zhit/offset", ["_adjust_modulus_offset"], ns)
+                O.load(Z, ["perform_zhit"], ns)
+                err = None
+                try:
+                    ns["perform_zhit"](Data(), smoothing=smoothing, interpolation=interpolation, window=window, num_points=3, polynomial_order=2, num_iterations=3,
+                                       center=1.5, width=3.0, weights=(Arr([1.0, 1.0, 1.0]) if with_weights else None), admittance=False, num_procs=1)
+                except Exception as ex:  # noqa
+                    err = ex; import traceback, os; os.environ.get("PYVC_TRACE") and traceback.print_exc()
+                n += 1
+                tag = f"[W={Wn},smoothing={smoothing},interpolation={interpolation},window={window},weights={'array' if with_weights else 'None'}]"
+                sess.check("exc-free", [], z3.BoolVal(err is None), 0, label=f"no abort from step accounting ({type(err).__name__ if err else 'ok'}){tag}")
+                if err is None and made:
+                    p = made[0]
+                    sess.check("post", [], z3.BoolVal(0 <= p._i <= p._total), 0, label=f"0 <= steps taken ({p._i}) <= total ({p._total}){tag}")
+        sess.check("cover", [], z3.BoolVal(n == 48), 0, label=f"{n} option/table combinations")
+        sess.assumptions.append("perform_zhit step accounting: window table non-empty (W >= 1); counts are affine in W, checked at W = 1, 2, 14")
+    return ("analysis/zhit/__init__:perform_zhit[step accounting]", "analysis/zhit/__init__", "perform_zhit", run)
+
+
+_part1_targets = targets
+
+
+def targets():      # noqa: F811
+    return _part1_targets() + [target_zhit_steps()]
